@@ -433,6 +433,7 @@ impl JSON {
                         let mut number_of_closed_square_brackets = 0;
 
                         let mut read_char = true;
+                        let mut is_inside_string = false;
                         while read_char {
 
                             let byte = 0;
@@ -446,6 +447,21 @@ impl JSON {
                             }
                             boxed_read.unwrap();
                             bytes_read = bytes_read + length as i128;
+                            // complete a multi-byte utf-8 character before decoding it
+                            let first_byte = *char_buffer.get(0).unwrap();
+                            let mut remaining_bytes = 0;
+                            if first_byte >= 0xF0 { remaining_bytes = 3 } else if first_byte >= 0xE0 { remaining_bytes = 2 } else if first_byte >= 0xC0 { remaining_bytes = 1 }
+                            if remaining_bytes > 0 {
+                                let mut continuation = vec![0; remaining_bytes];
+                                let boxed_read = cursor.read_exact(&mut continuation);
+                                if boxed_read.is_err() {
+                                    let error = boxed_read.err().unwrap().to_string();
+                                    let message = format!("error at byte {} of {} bytes, message: {} ", bytes_read, total_bytes, error);
+                                    return Err(message);
+                                }
+                                bytes_read = bytes_read + remaining_bytes as i128;
+                                char_buffer.append(&mut continuation);
+                            }
                             let boxed_parse = String::from_utf8(char_buffer);
                             if boxed_parse.is_err() {
                                 let error = boxed_parse.err().unwrap().to_string();
@@ -454,13 +470,18 @@ impl JSON {
                             }
                             let char = boxed_parse.unwrap().chars().last().unwrap();
 
-                            let is_open_square_bracket = char == '[';
+                            // brackets inside of a string are part of the string
+                            if char == '"' && !key_value_pair.ends_with('\\') {
+                                is_inside_string = !is_inside_string;
+                            }
+
+                            let is_open_square_bracket = char == '[' && !is_inside_string;
                             if is_open_square_bracket {
                                 number_of_open_square_brackets = number_of_open_square_brackets + 1;
                             }
 
 
-                            let is_close_square_bracket = char == ']';
+                            let is_close_square_bracket = char == ']' && !is_inside_string;
                             if is_close_square_bracket {
                                 number_of_closed_square_brackets = number_of_closed_square_brackets + 1;
                             }
@@ -510,6 +531,7 @@ impl JSON {
                         let mut number_of_closed_curly_braces = 0;
 
                         let mut read_char = true;
+                        let mut is_inside_string = false;
                         while read_char {
 
                             let byte = 0;
@@ -523,6 +545,21 @@ impl JSON {
                             }
                             boxed_read.unwrap();
                             bytes_read = bytes_read + length as i128;
+                            // complete a multi-byte utf-8 character before decoding it
+                            let first_byte = *char_buffer.get(0).unwrap();
+                            let mut remaining_bytes = 0;
+                            if first_byte >= 0xF0 { remaining_bytes = 3 } else if first_byte >= 0xE0 { remaining_bytes = 2 } else if first_byte >= 0xC0 { remaining_bytes = 1 }
+                            if remaining_bytes > 0 {
+                                let mut continuation = vec![0; remaining_bytes];
+                                let boxed_read = cursor.read_exact(&mut continuation);
+                                if boxed_read.is_err() {
+                                    let error = boxed_read.err().unwrap().to_string();
+                                    let message = format!("error at byte {} of {} bytes, message: {} ", bytes_read, total_bytes, error);
+                                    return Err(message);
+                                }
+                                bytes_read = bytes_read + remaining_bytes as i128;
+                                char_buffer.append(&mut continuation);
+                            }
                             let boxed_parse = String::from_utf8(char_buffer);
                             if boxed_parse.is_err() {
                                 let error = boxed_parse.err().unwrap().to_string();
@@ -537,13 +574,18 @@ impl JSON {
                             }
                             let char = boxed_last_char.unwrap();
 
-                            let is_open_curly_brace = char == '{';
+                            // braces inside of a string are part of the string
+                            if char == '"' && !key_value_pair.ends_with('\\') {
+                                is_inside_string = !is_inside_string;
+                            }
+
+                            let is_open_curly_brace = char == '{' && !is_inside_string;
                             if is_open_curly_brace {
                                 number_of_open_curly_braces = number_of_open_curly_braces + 1;
                             }
 
 
-                            let is_close_curly_brace = char == '}';
+                            let is_close_curly_brace = char == '}' && !is_inside_string;
                             if is_close_curly_brace {
                                 number_of_closed_curly_braces = number_of_closed_curly_braces + 1;
                             }
